@@ -39,20 +39,21 @@ type Params struct {
 
 // Info describes what the generator produced (for class counters).
 type Info struct {
-	WeightClass string
-	Forkers     []int
-	ForkPairs   int // number of events that repeat a (creator, seq) pair
-	Partitions  int // number of periods with a partition
-	Lagged      int // parents that were not the latest tip
-	NonMax      int // events with a non-maximal claimed frame
-	Offline     int // validator-periods spent silent
-	Density     string
-	MaxParents  int
-	Rotating    bool
-	Shape       string // "", "many_validators", "late_quorum", "mass_fork", "long_silence"
-	Layered     bool   // synchronous rounds
-	Marginal    bool   // parents chosen so that their creators weigh about the quorum
-	HiddenForks int    // siblings signed right after each other (the older one is rarely built upon)
+	WeightClass       string
+	Forkers           []int
+	ForkPairs         int // number of events that repeat a (creator, seq) pair
+	Partitions        int // number of periods with a partition
+	Lagged            int // parents that were not the latest tip
+	NonMax            int // events with a non-maximal claimed frame
+	Offline           int // validator-periods spent silent
+	Density           string
+	MaxParents        int
+	Rotating          bool
+	Shape             string // "", "many_validators", "late_quorum", "mass_fork", "long_silence"
+	Layered           bool   // synchronous rounds
+	Marginal          bool   // parents chosen so that their creators weigh about the quorum
+	ConfidantSilences int    // times the confidant saw two branches of a forker directly and fell silent
+	HiddenForks       int    // siblings signed right after each other (the older one is rarely built upon)
 }
 
 // DrawShape draws one of the large shapes (the preferred one in half of the cases). VERIF_SHAPE (development aid, never set by the registered commands)
@@ -429,6 +430,19 @@ func GenDAG(t *rapid.T, epoch uint32, ids []idx.ValidatorID, weights []pos.Weigh
 	var queue []int // creators scheduled for the current round
 	round := 0
 	burstLeft, burstSP, burstDone := 0, -1, false
+	// confidant mode: the first non-forking validator of the canonical order is the only one the forkers show their
+	// other branches to; after such a sighting it is silent for a few rounds
+	confidant, confidantSilentUntil := -1, 0
+	confidantEvery := rapid.IntRange(2, 5).Draw(t, "confidantEvery")
+	if len(info.Forkers) > 0 && n >= 4 && info.Shape == "" && rapid.IntRange(0, 3).Draw(t, "confidantMode") == 0 {
+		for r := 0; r < n && confidant < 0; r++ {
+			for v := range rank {
+				if rank[v] == r && !isForker[v] {
+					confidant = v
+				}
+			}
+		}
+	}
 	silentCut := false
 	hiddenSibling, lastSP := false, -1
 	for len(ref.Evs) < nEvents {
@@ -515,6 +529,15 @@ func GenDAG(t *rapid.T, epoch uint32, ids []idx.ValidatorID, weights []pos.Weigh
 				}
 				online[lateLeaver] = false
 			}
+			if confidant >= 0 {
+				// the confidant is a slow validator: it shows up every few rounds only (its events are then roots of
+				// all the frames it missed), and not at all for a while after a sighting
+				if round < confidantSilentUntil || round%confidantEvery != 0 {
+					online[confidant] = false
+				} else {
+					online[confidant] = true
+				}
+			}
 			if silent >= 0 {
 				cut := round > silentFrom && round <= silentFrom+silentRounds
 				for v := range online {
@@ -550,6 +573,9 @@ func GenDAG(t *rapid.T, epoch uint32, ids []idx.ValidatorID, weights []pos.Weigh
 						break
 					}
 				}
+			}
+			if len(queue) == 0 {
+				queue = append(queue, perm[0]) // nobody is online: somebody wakes up
 			}
 			for v := range snap {
 				snap[v] = len(ref.ByCreat[v])
@@ -642,6 +668,9 @@ func GenDAG(t *rapid.T, epoch uint32, ids []idx.ValidatorID, weights []pos.Weigh
 			}
 			pi := len(evs) - 1
 			maxLag := seenLate[u] + learnLate[creator]
+			if confidant >= 0 && isForker[u] && creator != confidant {
+				maxLag = 0 // the others always build on the forker's newest event
+			}
 			if maxLag > 0 {
 				lag := rapid.IntRange(0, maxLag).Draw(t, "lag")
 				pi -= lag
@@ -656,11 +685,18 @@ func GenDAG(t *rapid.T, epoch uint32, ids []idx.ValidatorID, weights []pos.Weigh
 			// two direct parents by one forking validator (events of different branches): allowed by the event
 			// checks, and the only way to see a fork without a common descendant of the branches
 			// (rare with 65-70 validators: one such event per round would reveal every fork to everybody at once)
-			if isForker[u] && len(evs) >= 2 && len(others) < maxParents+1 && rapid.IntRange(0, 3).Draw(t, "secondParentOfForker") == 0 &&
+			// (confidant mode: only the confidant ever gets to see two branches directly, and it falls silent right
+			// afterwards - what it knows reaches the others through its last event only)
+			if isForker[u] && len(evs) >= 2 && len(others) < maxParents+1 && (confidant < 0 || confidant == creator) &&
+				(rapid.IntRange(0, 3).Draw(t, "secondParentOfForker") == 0 || (confidant == creator && rapid.IntRange(0, 3).Draw(t, "confidantSighting") != 0)) &&
 				(core == nil || rapid.IntRange(0, 49).Draw(t, "secondParentOfForkerMany") == 0) {
 				pj := rapid.IntRange(refFrom[u], len(evs)-1).Draw(t, "secondParentIdx")
 				if pj != pi {
 					others = append(others, evs[pj])
+					if confidant == creator {
+						confidantSilentUntil = round + rapid.IntRange(2, 9).Draw(t, "confidantSilence")
+						info.ConfidantSilences++
+					}
 				}
 			}
 		}
